@@ -341,7 +341,7 @@ fn cmd_run(args: &[String]) -> i32 {
         let open = known.iter().find(|k| k.status == "open" && k.property == property && k.key == *key);
         // smallest case first
         let f = fs.iter().min_by_key(|f| serde_json::to_string(&f.case).map(|s| s.len()).unwrap_or(0)).unwrap();
-        let mut sh = Shrinker { env: &env, oracle: &mut oracle, property: property.clone(), invariant: invariant.clone(), runs: 0, budget: 600 };
+        let mut sh = Shrinker { env: &env, oracle: &mut oracle, property: property.clone(), invariant: invariant.clone(), runs: 0, budget: 600, deadline: Instant::now() + std::time::Duration::from_secs(60) };
         let min = sh.shrink(&f.case);
         let shrink_runs = sh.runs;
         // final confirmation in a fresh world, twice
@@ -370,7 +370,7 @@ fn cmd_run(args: &[String]) -> i32 {
         println!("  invariant {} at step {}: {}", v.invariant, v.step, v.message);
         println!("  seed={} ({} failing cases in this group; key {})", case.seed, fs.len(), key2);
         if let Some(Step::Inv(inv)) = case.steps.get(v.step) {
-            println!("  argv: typstyle {}   (cwd {}, plan {:?})", inv.argv("{ROOT}").join(" "), inv.cwd, inv.plan.iter().map(|r| r.render()).collect::<Vec<_>>());
+            println!("  argv: typstyle {}   (cwd {}, plan {:?})", vsim::util::excerpt(inv.argv("{ROOT}").join(" ").as_bytes(), 400), inv.cwd, inv.plan.iter().map(|r| r.render()).collect::<Vec<_>>());
         }
         reported.push(json!({"invariant": v.invariant, "message": v.message, "replay": path, "seed": case.seed}));
     }
